@@ -12,6 +12,8 @@ import (
 
 	"github.com/shopspring/decimal"
 	"github.com/tyler-sommer/stick"
+	"github.com/tyler-sommer/stick/twig"
+	"github.com/tyler-sommer/stick/twig/escape"
 
 	"verif/core"
 )
@@ -652,7 +654,112 @@ func c15Levels(tier string) []core.Level {
 	return lv
 }
 
+var (
+	c15CoreEnv *stick.Env
+	c15TwigEnv *stick.Env
+)
+
+// c15PrintLaw: the consumers of the coercions inside the library agree with them. Printing a value ({{ v }}) in a core
+// environment and in a Twig .txt template writes CoerceString(v); in a Twig html / js template the escaper's rendering
+// of CoerceString(v); v ~ '' is CoerceString(v); {% if v %} and the conditional choose by CoerceBool(v); v + 0 is
+// CoerceNumber(v). (Safe wrappers are left to C12.)
+func c15PrintLaw(vals []stick.Value) string {
+	if c15CoreEnv == nil {
+		c15CoreEnv = stick.New(nil)
+		c15TwigEnv = twig.New(&stick.MemoryLoader{Templates: map[string]string{
+			"p.txt":  "{% for v in vs %}{{ v }}\x00{{ v ~ '' }}\x00{% if v %}T{% else %}F{% endif %}{{ v ? 'T' : 'F' }}\x00{% endfor %}",
+			"p.html": "{% for v in vs %}{{ v }}\x00{{ v|escape('html') }}\x00{{ v|raw }}\x00{% endfor %}",
+			"p.js":   "{% for v in vs %}{{ v }}\x00{{ v|escape('js') }}\x00{{ v|raw }}\x00{% endfor %}",
+		}})
+	}
+	var vs []stick.Value
+	for _, v := range vals {
+		if _, safe := v.(stick.SafeValue); !safe {
+			vs = append(vs, v)
+		}
+	}
+	if len(vs) == 0 {
+		return ""
+	}
+	type form struct {
+		env  *stick.Env
+		name string
+		want func(s string, b bool) []string
+		what []string
+	}
+	tf := func(b bool) string {
+		if b {
+			return "TT"
+		}
+		return "FF"
+	}
+	forms := []form{
+		{c15CoreEnv, "{% for v in vs %}{{ v }}\x00{{ v ~ '' }}\x00{% if v %}T{% else %}F{% endif %}{{ v ? 'T' : 'F' }}\x00{% endfor %}",
+			func(s string, b bool) []string { return []string{s, s, tf(b)} }, []string{"{{ v }} (core environment)", "{{ v ~ '' }}", "{% if v %} / v ? :"}},
+		{c15TwigEnv, "p.txt", func(s string, b bool) []string { return []string{s, s, tf(b)} }, []string{"{{ v }} (twig, .txt)", "{{ v ~ '' }} (twig, .txt)", "{% if v %} / v ? : (twig)"}},
+		{c15TwigEnv, "p.html", func(s string, b bool) []string { return []string{escape.HTML(s), escape.HTML(s), s} }, []string{"{{ v }} (twig, .html)", "{{ v|escape('html') }}", "{{ v|raw }}"}},
+		{c15TwigEnv, "p.js", func(s string, b bool) []string { return []string{escape.JS(s), escape.JS(s), s} }, []string{"{{ v }} (twig, .js)", "{{ v|escape('js') }} (.js)", "{{ v|raw }} (.js)"}},
+	}
+	for _, f := range forms {
+		out, err, pan := tryExec(f.env, f.name, map[string]stick.Value{"vs": vs})
+		if err != nil || pan != "" {
+			return fmt.Sprintf("printing %d values with %q: %v %s", len(vs), f.name, err, pan)
+		}
+		parts := strings.Split(out, "\x00")
+		for i, v := range vs {
+			s := stick.CoerceString(v)
+			if strings.Contains(s, "\x00") {
+				return ""
+			}
+			want := f.want(s, stick.CoerceBool(v))
+			for k := range want {
+				if 3*i+k >= len(parts) || parts[3*i+k] != want[k] {
+					got := "<missing>"
+					if 3*i+k < len(parts) {
+						got = parts[3*i+k]
+					}
+					return fmt.Sprintf("%s with v = %T(%v) renders %q, but CoerceString(v) = %q, CoerceBool(v) = %v (want %q)", f.what[k], v, v, got, s, stick.CoerceBool(v), want[k])
+				}
+			}
+		}
+	}
+	return ""
+}
+
 func c15Run(c core.Case) core.Result {
+	res := c15RunBase(c)
+	if res.V != core.OK {
+		return res
+	}
+	var vals []stick.Value
+	switch c.Fam {
+	case "misc":
+		vals = []stick.Value{c15Misc()[c.N[0]].v}
+	case "int":
+		n, _ := new(big.Int).SetString(c.Args[0], 10)
+		if a := new(big.Int).Abs(n); a.Cmp(big.NewInt(1100)) > 0 && a.Cmp(big.NewInt(999990)) < 0 && new(big.Int).Mod(a, big.NewInt(1000)).Sign() != 0 && new(big.Int).Mod(a, big.NewInt(64)).Sign() != 0 {
+			return res // the dense sweeps of the mid-range integers: every multiple of 64 and of 1000
+		}
+		vals = carriers(n)
+		vals = append(vals, n.String(), n.String()+".0")
+	case "f64":
+		bits, _ := strconv.ParseUint(c.Args[0], 16, 64)
+		f := math.Float64frombits(bits)
+		if bits&(1<<44-1) == 0 && bits&(0xF<<44) != 0 {
+			return res // the dense mantissa sweep: the values with <= 4 significant mantissa bits
+		}
+		vals = []stick.Value{f}
+		if f32 := float32(f); float64(f32) == f {
+			vals = append(vals, f32)
+		}
+	}
+	if msg := c15PrintLaw(vals); msg != "" {
+		return core.Violation("printed", msg)
+	}
+	return res
+}
+
+func c15RunBase(c core.Case) core.Result {
 	switch c.Fam {
 	case "misc":
 		return c15MiscRun(c.N[0])
